@@ -59,3 +59,16 @@ Theorem C04_stream_tweak_reset_refuted :
     r_pairs Rsym (sym_stream_transcript false perm G ni n steps x) = [].
 Proof. exact stream_tweak_reset_refuted. Qed.
 Print Assumptions C04_stream_tweak_reset_refuted.
+
+(* SHA256(XOR) round protocol: GarblerRound3 also sends both labels of every
+   output wire (OutputHints).  With that addition the transcript is NOT safe
+   (witness: a 7-gate circuit whose plain transcript is safe and whose
+   transcript with hints contains an R-apart pair).  This is the model-side
+   statement of the known finding F2; the harness exhibits it on the real
+   Round3 payload. *)
+Theorem C04_sha2pc_output_hints_refuted :
+  exists perm c x, wf c = true /\
+    r_pairs Rsym (sym_transcript perm c x) = [] /\
+    r_pairs Rsym (sym_transcript_with_hints perm c x) <> [].
+Proof. exact sha2pc_output_hints_refuted. Qed.
+Print Assumptions C04_sha2pc_output_hints_refuted.
